@@ -1399,6 +1399,22 @@ fn short(vs: &[Val]) -> serde_json::Value {
     json!(vs.iter().take(60).map(|v| format!("{:?}", v)).collect::<Vec<_>>())
 }
 
+// build a column from values under the panic guard: a panic while building is a finding (a Vec accepts any values of
+// the documented domain), not a crash of the family.  On a panic the column is replaced by an empty one and false returned.
+fn rebuild_guarded(rep: &mut Report, col: &mut Box<dyn Driver>, ct: &CT, ms: usize, vals: &[Val]) -> bool {
+    let r = guard(|| col.rebuild(vals));
+    match r {
+        Ok(()) => true,
+        Err(p) => {
+            fail(rep, format!("hexcol|panic|{}|rebuild|{}", p.signature(), ct.name),
+                &format!("{}: building a column from {} values panicked: {} at {}", ct.name, vals.len(), p.message, p.location),
+                json!({"type": ct.name, "max_segments": ms, "values": short(vals), "len": vals.len()}));
+            *col = make(ct, ms);
+            false
+        }
+    }
+}
+
 fn run_program(rng: &mut Rng, ct: &CT, ms: usize, cfg: &ProgCfg, rep: &mut Report, cw: &mut CaseWriter) {
     let mut g = Gen::new(ct, rng, cfg.sorted, cfg.model);
     let mut col = make(ct, ms);
@@ -1413,7 +1429,9 @@ fn run_program(rng: &mut Rng, ct: &CT, ms: usize, cfg: &ProgCfg, rep: &mut Repor
             init.sort();
         }
         mirror = init;
-        col.rebuild(&mirror);
+        if !rebuild_guarded(rep, &mut col, ct, ms, &mirror) {
+            return;
+        }
     }
     let init = mirror.clone();
     let mut log: Vec<String> = vec![];
@@ -1473,7 +1491,9 @@ fn run_program(rng: &mut Rng, ct: &CT, ms: usize, cfg: &ProgCfg, rep: &mut Repor
         let st = if r.is_ok() { 0 } else { 3 };
         if rebuilt {
             col = make(ct, ms);
-            col.rebuild(&mirror);
+            if !rebuild_guarded(rep, &mut col, ct, ms, &mirror) {
+                return;
+            }
         }
         // contents after EVERY edit
         let got = guard(|| (col.len(), col.to_vec()));
@@ -1493,7 +1513,9 @@ fn run_program(rng: &mut Rng, ct: &CT, ms: usize, cfg: &ProgCfg, rep: &mut Repor
                         failed = true;
                     }
                     col = make(ct, ms);
-                    col.rebuild(&mirror);
+                    if !rebuild_guarded(rep, &mut col, ct, ms, &mirror) {
+                return;
+            }
                     model_ok = false;
                 } else {
                     impl_vec = Some(v);
@@ -1505,7 +1527,9 @@ fn run_program(rng: &mut Rng, ct: &CT, ms: usize, cfg: &ProgCfg, rep: &mut Repor
                     replay(&log, json!({"before": short(&before)})));
                 failed = true;
                 col = make(ct, ms);
-                col.rebuild(&mirror);
+                if !rebuild_guarded(rep, &mut col, ct, ms, &mirror) {
+                return;
+            }
                 model_ok = false;
             }
         }
